@@ -14,8 +14,9 @@ except ImportError:   # pragma: no cover
 class Elem:
     """Top-level element of a pattern: a group (with number and children), a literal string, or other."""
 
-    def __init__(self, kind, group=None, text=None, children=None, blank=False, nullable=False):
+    def __init__(self, kind, group=None, text=None, children=None, blank=False, nullable=False, digits=False):
         self.kind, self.group, self.text = kind, group, text      # kind: group | literal | other
+        self.digits = digits        # matches only decimal digits
         self.children = children or []
         self.blank = blank          # matches only whitespace
         self.nullable = nullable    # may match the empty string
@@ -39,6 +40,31 @@ def _only_space(items):
                 return False
         elif op is LITERAL:
             if chr(av) not in " \t":
+                return False
+        else:
+            return False
+    return True
+
+
+def _only_digits(items):
+    """Does the sub-pattern match only decimal digits (or nothing)?"""
+    if not items:
+        return False
+    for op, av in items:
+        if op in (MAX_REPEAT, MIN_REPEAT):
+            if not _only_digits(av[2]):
+                return False
+        elif op is IN:
+            for o, a in av:
+                if o is CATEGORY and str(a) == "CATEGORY_DIGIT":
+                    continue
+                if str(o) == "RANGE" and chr(a[0]).isdigit() and chr(a[1]).isdigit():
+                    continue
+                if o is LITERAL and chr(a).isdigit():
+                    continue
+                return False
+        elif op is LITERAL:
+            if not chr(av).isdigit():
                 return False
         else:
             return False
@@ -77,7 +103,7 @@ def _elements(items):
             gid, _, _, sub = av
             kids = _elements(sub)
             partition = bool(kids) and all(k.kind == "group" for k in kids)
-            out.append(Elem("group", group=gid, children=kids if partition else [], blank=_only_space(sub), nullable=_nullable(sub)))
+            out.append(Elem("group", group=gid, children=kids if partition else [], blank=_only_space(sub), nullable=_nullable(sub), digits=_only_digits(list(sub))))
         elif op is AT:
             continue
         else:
